@@ -8,6 +8,8 @@ the dispatcher's calling protocol (NOT by arbitrary callback sequences: two star
 `handle_start_tag` would register one ordinal twice), and under it the lookup of `tokEndTag` never fails.
 -/
 import LolHtml.Thm.Full4
+import LolHtml.Lemmas.FullSites
+import LolHtml.Thm.FullIds
 
 namespace LolHtml.Thm.Full
 open LolHtml LolHtml.Model LolHtml.Model.Full LolHtml.Model.Handlers LolHtml.EditModel LolHtml.Lemmas.Full
@@ -577,5 +579,177 @@ theorem tokStartTag_pay (cfg : Cfg) (s : St) (hw : VecWf s.disp.element)
   · rename_i hb
     rw [if_neg hb] at he
     simp at he
+
+/-! ## the run invariant with payloads -/
+
+/-- the invariant along protocol-conforming runs, with the payload clauses -/
+def J2 (cfg : Cfg) (s : St) : Prop := J cfg s ∧ PayInv s
+
+theorem payInv_init (cfg : Cfg) : PayInv (St.init cfg) := by
+  have h : (St.init cfg).disp.endTag = LolHtml.Lemmas.Scope.mk [] :=
+    (LolHtml.Lemmas.Scope.fromSettings_state cfg.selRegs cfg.docRegs).endTag
+  have ho : ordsOf (St.init cfg).disp = [] := by unfold ordsOf; rw [h]; rfl
+  exact ⟨fun o hh => (by rw [ho] at hh; cases hh), (by rw [ho]; exact List.Pairwise.nil),
+    fun o hh => (by rw [ho] at hh; cases hh)⟩
+
+theorem J2_init (cfg : Cfg) : J2 cfg (St.init cfg) := ⟨J_init cfg, payInv_init cfg⟩
+
+theorem rPayload_notSiteC : Chunk.R.NotSiteC rPayload := ⟨by decide, by decide, by decide, by decide⟩
+
+theorem startPhase_fault (s : St) (ln : LocalName) (ns : Model.Ns) (info : AuxInfo) :
+    (startPhase s ln ns info).1.fault = s.fault := by
+  unfold startPhase
+  dsimp only
+  split
+  · exact Chunk.R.startTag_fault _ _ _
+  · exact Chunk.R.startTag_fault _ _ _
+  · rw [Chunk.R.auxInfo_fault, Chunk.R.startTag_fault]
+
+theorem startPhase_not_rPayload (s : St) (hf : s.fault = none) (ln : LocalName) (ns : Model.Ns) (info : AuxInfo) :
+    (startPhase s ln ns info).2 ≠ .error (.panic rPayload) := by
+  unfold startPhase
+  dsimp only
+  cases hst : (startTag s ln ns).2 with
+  | flags f => intro hh; cases hh
+  | err e =>
+    intro hh
+    simp only [Except.error.injEq] at hh
+    subst hh
+    exact Chunk.R.startTag_nb rPayload_notSiteC s ln ns (by unfold Chunk.R.NF; rw [hf]; intro h; cases h) hst
+  | infoRequest => exact Chunk.R.auxInfo_nb rPayload_notSiteC _ _
+
+theorem tokStartTag_not_rPayload (cfg : Cfg) (s : St) (name : Bytes) (attrs : List (Bytes × Bytes × AttrOutline))
+    (ns : Model.Ns) (sc : Bool) (raw : Bytes) (src : Range) (base : Nat) :
+    (tokStartTag cfg s name attrs ns sc raw src base).2.err ≠ some (.panic rPayload) := by
+  intro h
+  unfold tokStartTag at h
+  split at h
+  · split at h
+    · simp only [Option.some.injEq, Err.panic.injEq] at h; revert h; decide
+    · rename_i as hm
+      dsimp only at h
+      generalize (if 0 < s.disp.removedContent then
+        StartTag.apply { name := name, attributes := as, ns := nsEdit ns, selfClosing := sc, raw := raw } (StartTagOp.mut MutOp.remove)
+        else { name := name, attributes := as, ns := nsEdit ns, selfClosing := sc, raw := raw }) = st at h
+      generalize runClosures cfg.elementScripts kElement Who.element (seeElement ns) Element.applyOps src
+          s.disp.element.forEachActive s (Element.new st s.disp.nextElementCanHaveContent) = r at h
+      split at h
+      · simp at h
+      · split at h
+        · simp only [Option.some.injEq, dispErr, dispMsg, rPayload, Err.panic.injEq] at h; revert h; decide
+        · simp at h
+  · simp only [Option.some.injEq, Err.panic.injEq] at h; revert h; decide
+
+/-- **`J2` is an event invariant**: a start-tag event can only fail with a handler error, at `rAttr` or at
+`rMatcher`; an end-tag event cannot fail at all. -/
+theorem J2_evInv (cfg : Cfg) :
+    EvInv cfg (J2 cfg) (fun e => e = .panic rAttr ∨ e = .panic rMatcher) (fun _ => False) where
+  fault := fun _ h => h.1.fault
+  other := fun s tok b h hk => by
+    obtain ⟨o1, o2⟩ := tokIf_other_no_panic cfg s h.1 tok hk b
+    refine ⟨fun hn => ⟨o1 hn, ?_⟩, o2⟩
+    unfold tokIf
+    split
+    · obtain ⟨a, _, _, d, _⟩ := tokOther_frame cfg s tok hk h.1.fault
+      exact h.2.of_frame (by rw [a]) (tokOther_payloads cfg s tok hk h.1.fault) (by rw [d]; exact Nat.le_refl _)
+    · exact h.2
+  start := fun s ln ns info nm attrs ns' sc raw src base h => by
+    obtain ⟨c1, c2⟩ := start_event_no_panic cfg (Full_idsBounded cfg) s h.1 ln ns info nm attrs ns' sc raw src base
+    obtain ⟨p1, p2, p3⟩ := startPhase_pay s h.1.fault ln ns info
+    have hmf : (startPhase s ln ns info).1.fault = none := by rw [startPhase_fault]; exact h.1.fault
+    have hords : ordsOf (startPhase s ln ns info).1.disp = ordsOf s.disp := by unfold ordsOf; rw [p1]
+    constructor
+    · intro hn
+      refine ⟨c1 hn, ?_⟩
+      simp only [ctlStep] at hn ⊢
+      cases hsp : (startPhase s ln ns info).2 with
+      | error e => rw [hsp] at hn; cases hn
+      | ok f =>
+        rw [hsp] at hn
+        dsimp only at hn ⊢
+        unfold tokIf at hn ⊢
+        split
+        · rename_i hb1
+          rw [if_pos hb1] at hn
+          dsimp only at hn
+          have htok : token cfg (startPhase s ln ns info).1 (.startTag nm attrs ns' sc raw src base) =
+              tokStartTag cfg (startPhase s ln ns info).1 nm attrs ns' sc raw src base := by
+            unfold token; simp only [hmf]
+          rw [htok] at hn ⊢
+          exact tokStartTag_pay cfg _ (startPhase_valid h.1.valid ln ns info).wf.element
+            (by rw [hords, p2]; exact h.2.cover) (by rw [hords]; exact h.2.incr)
+            (fun o ho => by rw [hords] at ho; have := h.2.bound o ho; omega) nm attrs ns' sc raw src base hn
+        · exact h.2.of_frame hords p2 (by rw [p3]; omega)
+    · intro e he
+      have hne : e ≠ .panic rPayload := by
+        intro heq
+        subst heq
+        simp only [ctlStep] at he
+        cases hsp : (startPhase s ln ns info).2 with
+        | error e' =>
+          rw [hsp] at he
+          simp only [Option.some.injEq] at he
+          subst he
+          exact startPhase_not_rPayload s h.1.fault ln ns info hsp
+        | ok f =>
+          rw [hsp] at he
+          dsimp only at he
+          unfold tokIf at he
+          split at he
+          · have htok : token cfg (startPhase s ln ns info).1 (.startTag nm attrs ns' sc raw src base) =
+                tokStartTag cfg (startPhase s ln ns info).1 nm attrs ns' sc raw src base := by
+              unfold token; simp only [hmf]
+            rw [htok] at he
+            exact tokStartTag_not_rPayload cfg _ nm attrs ns' sc raw src base he
+          · cases he
+      rcases c2 e he with h1 | (h1 | h1 | h1) | h1
+      · exact Or.inl h1
+      · exact Or.inr (Or.inl (Or.inl h1))
+      · exact Or.inr (Or.inr h1)
+      · exact absurd h1 hne
+      · exact Or.inr (Or.inl (Or.inr h1))
+  end_ := fun s ln nm raw src h => by
+    obtain ⟨c1, c2⟩ := Full_end_no_panic cfg s h.1 ln nm raw src
+    obtain ⟨p1, p2, p3⟩ := endTag_pay s ln
+    have hmid : PayInv (endTag s ln).1 := h.2.of_frame p1 p2 (by omega)
+    have hnf : Chunk.R.NF rPayload (endTag s ln).1 :=
+      Chunk.R.endTag_nf rPayload_notSiteC s ln (by unfold Chunk.R.NF; rw [h.1.fault]; intro hh; cases hh)
+    have hstep : ctlStep cfg s (.end_ ln (.endTag nm raw src)) =
+        tokIf cfg (endTag s ln).2.nextEndTag (endTag s ln).1 (.endTag nm raw src) := by
+      simp only [ctlStep]
+    have hno : (ctlStep cfg s (.end_ ln (.endTag nm raw src))).2 ≠ some (.panic rPayload) := by
+      rw [hstep]
+      unfold tokIf
+      split
+      · dsimp only
+        unfold token
+        split
+        · rename_i m hm
+          intro hh
+          simp only [Option.some.injEq, Err.panic.injEq] at hh
+          subst hh
+          exact hnf hm
+        · exact (tokEndTag_pay _ hmid nm raw src).1
+      · intro hh; cases hh
+    constructor
+    · intro hn
+      refine ⟨(c1 hn).1, ?_⟩
+      rw [hstep] at hn ⊢
+      unfold tokIf at hn ⊢
+      split
+      · rename_i hb1
+        rw [if_pos hb1] at hn
+        dsimp only at hn ⊢
+        have hmf : (endTag s ln).1.fault = none := by
+          cases hf : (endTag s ln).1.fault with
+          | none => rfl
+          | some m => unfold token at hn; simp [hf] at hn
+        have htok : token cfg (endTag s ln).1 (.endTag nm raw src) = tokEndTag (endTag s ln).1 nm raw src := by
+          unfold token; simp only [hmf]
+        rw [htok] at hn ⊢
+        exact (tokEndTag_pay _ hmid nm raw src).2 hn
+      · exact hmid
+    · intro e he
+      exact hno (by rw [he, c2 e he])
 
 end LolHtml.Thm.Full
